@@ -274,6 +274,19 @@ where
             };
             stack.push((style, next_line));
 
+            // If nothing at all could be placed on an otherwise empty line (e.g. a double-width
+            // character does not fit next to the wrap symbol in a very narrow panel), then
+            // wrapping can not make progress. With a line limit the loop ends there; without
+            // one it would never end, so stop: what is left is added to the last line and
+            // truncated later.
+            if max_lines == 0
+                && next_line.len() == text.len()
+                && line_segments.iter().all(|(_, s)| s.is_empty())
+            {
+                curr_line = CurrLine::reset();
+                break Stop::LineLimit;
+            }
+
             line_segments.push((symbol_style, &wrap_config.left_symbol));
             result.push(line_segments);
 
